@@ -657,9 +657,9 @@ impl Direct {
         let zombies = env.take_rings();
         let twin = env.twin();
         drop(env); // files (both sides) dropped un-entered: the drops reach no filesystem
-        self.fs.lock().unwrap().crash();
-        self.iou.lock().unwrap().crash();
-        twin.lock().unwrap().crash();
+        self.fs.lock().unwrap_or_else(|e| e.into_inner()).crash();
+        self.iou.lock().unwrap_or_else(|e| e.into_inner()).crash();
+        twin.lock().unwrap_or_else(|e| e.into_inner()).crash();
         self.p.borrow_mut().on_crash();
         let p = self.p.clone();
         let mut env = self.entered(|| Env::setup(p));
@@ -1471,7 +1471,7 @@ fn random_sim(rng: &mut SmallRng, cfg: &RunCfg, steps: usize, stall_ms: u64, exi
                 }
             }
             sim.crash("h");
-            p.borrow().twin.lock().unwrap().crash();
+            p.borrow().twin.lock().unwrap_or_else(|e| e.into_inner()).crash();
             p.borrow_mut().on_crash();
             sh.borrow_mut().cmds.clear();
             sh.borrow_mut().busy = false;
@@ -1499,7 +1499,7 @@ fn random_sim(rng: &mut SmallRng, cfg: &RunCfg, steps: usize, stall_ms: u64, exi
         sh.borrow_mut().cmds.extend(held.into_iter().map(|r| Cmd::Drain { r }));
         step(&mut sim, &mut k, &sh);
         sim.crash("h");
-        p.borrow().twin.lock().unwrap().crash();
+        p.borrow().twin.lock().unwrap_or_else(|e| e.into_inner()).crash();
         p.borrow_mut().on_crash();
         sh.borrow_mut().cmds.clear();
         sim.bounce("h");
